@@ -7,6 +7,9 @@ from props import pack_common as C
 
 
 def multisets(W, H, k):
+    if k < 0:  # the squares family: all multisets of -k squares
+        types = [(a, a) for a in range(1, min(W, H) + 1)]
+        return itertools.combinations_with_replacement(types, -k)
     types = C.item_types(W, H)
     return itertools.combinations_with_replacement(types, k)
 
@@ -32,7 +35,7 @@ def job(a):
             else:
                 merged.append([t[0], t[1], 1])
         variants = [merged]
-        if len(merged) < k:
+        if len(merged) < abs(k):
             variants.append([[t[0], t[1], 1] for t in ms])
         lbs = []
         try:
@@ -55,7 +58,7 @@ def job(a):
         if lb < geo or lb < 1:
             bads.append(("Instance|lower bound below the area bound", W, H,
                          merged, lb, geo))
-        if inst.total_item_area != area or inst.n_items != k:
+        if inst.total_item_area != area or inst.n_items != abs(k):
             bads.append(("Instance|area or item count wrong", W, H, merged,
                          (inst.total_item_area, inst.n_items), (area, k)))
         if BinCount(inst).lower_bound() != lb:
@@ -63,7 +66,7 @@ def job(a):
                          W, H, merged, BinCount(inst).lower_bound(), lb))
         try:
             sp = InstanceSpace(inst)
-            if sp.min_bins != min(lb, k):
+            if sp.min_bins != min(lb, abs(k)):
                 bads.append(("InstanceSpace|min_bins differs", W, H, merged,
                              sp.min_bins, lb))
         except ValueError:
@@ -76,9 +79,9 @@ def job(a):
             if cert is not None:
                 bads.append(("Instance|lower bound exceeds the optimum", W,
                              H, merged, lb, cert))
-        if lb > k:
+        if lb > abs(k):
             bads.append(("Instance|lower bound exceeds the number of items",
-                         W, H, merged, lb, k))
+                         W, H, merged, lb, abs(k)))
         if len(bads) > 10:
             break
     return ninst, searched, states[0], bads, above_area, sorted(distinct_lb)
@@ -94,6 +97,11 @@ def specs(ctx):
         for (W, H) in ((6, 6), (6, 4), (4, 6), (5, 5), (6, 5), (5, 6)):
             s.append((W, H, 5 if W * H <= 25 else 4))
         s += [(6, 6, 1), (6, 6, 2), (6, 6, 3), (6, 3, 5), (3, 6, 5)]
+        # squares only (the bound works on squares), larger non-square bins
+        for W in range(1, 13):
+            for H in range(1, 13):
+                for k in (1, 2, 3, 4):
+                    s.append((W, H, -k))
     else:
         for W in range(1, 7):
             for H in range(1, 7):
@@ -108,7 +116,14 @@ def specs(ctx):
             for H in range(1, 5):
                 s.append((W, H, 6))
         s += [(7, 7, 4), (8, 8, 4), (8, 6, 4), (6, 8, 4), (7, 5, 4),
-              (5, 7, 4), (10, 10, 3), (12, 5, 3), (5, 12, 3)]
+              (5, 7, 4), (10, 10, 3), (12, 5, 3), (5, 12, 3), (9, 6, 3),
+              (6, 9, 3), (9, 7, 3), (7, 9, 3), (10, 7, 3), (7, 10, 3)]
+        for W in range(1, 17):
+            for H in range(1, 17):
+                for k in (1, 2, 3, 4, 5):
+                    s.append((W, H, -k))
+        s += [(23, 20, -3), (20, 23, -3), (23, 20, -4), (20, 14, -4),
+              (14, 20, -4)]
     return s
 
 
@@ -116,12 +131,13 @@ def run(ctx: Ctx) -> None:
     jobs = []
     import math
     for (W, H, k) in specs(ctx):
-        nt = len(C.item_types(W, H))
-        cnt = math.comb(nt + k - 1, k)
+        nt = len(C.item_types(W, H)) if k > 0 else min(W, H)
+        cnt = math.comb(nt + abs(k) - 1, abs(k))
         ns = 1 if cnt < 4000 else min(256, max(ctx.jobs, cnt // 4000))
         jobs += [(W, H, k, s, ns) for s in range(ns)]
-    jobs.sort(key=lambda j: -(math.comb(len(C.item_types(j[0], j[1]))
-                                        + j[2] - 1, j[2]) // j[4]))
+    jobs.sort(key=lambda j: -(math.comb(
+        (len(C.item_types(j[0], j[1])) if j[2] > 0 else min(j[0], j[1]))
+        + abs(j[2]) - 1, abs(j[2])) // j[4]))
     out = pmap(job, jobs, ctx.jobs)
     ninst = searched = states = above = 0
     lbs = set()
@@ -149,7 +165,8 @@ def run(ctx: Ctx) -> None:
             f"states)")
     ctx.cov["distinct_nontrivial"] = above
     ctx.cov["rule"] = (
-        "all item multisets of size k for all bins within the specs (merged "
+        "all item multisets of size k (k<0: of |k| squares) for all bins "
+        "within the specs (merged "
         "and unmerged row form); non-trivial = instances whose lower bound "
         "is above the area bound, so that 'lb <= optimum' had to be decided"
         " by the packing search")
